@@ -211,3 +211,103 @@ Proof.
     unfold encode_e1, e1_write_bytes. change G1_SER_BYTES with 48%nat.
     cbn [length] in El. f_equal. rewrite (all_zero_repeat t Ez). f_equal. lia.
 Qed.
+
+(* ------------------------------------------------------------------ E1 round trip
+   every affine curve point with reduced coordinates encodes to bytes that decode back to it.
+   Needs p prime twice: Euler's criterion (the exponentiation (p+1)/4 finds a root of a square) and
+   no zero divisors (a root of y^2 is y or -y). *)
+Lemma pZ_3mod4 : pZ mod 4 = 3. Proof. vm_compute. reflexivity. Qed.
+
+Lemma fsqrt_complete : primeZ pZ -> forall y, 0 < y < pZ ->
+  exists c, fsqrt ZNum pZ ((y * y) mod pZ) = Some c /\ (c = y \/ c = (pZ - y) mod pZ).
+Proof.
+  intros Hpr y Hy. pose proof pZ_lt as Hp. pose proof pZ_3mod4 as H4.
+  assert (Hm : 1 < pZ) by lia.
+  set (a := (y * y) mod pZ).
+  assert (Ha : 0 <= a < pZ) by (apply Z.mod_pos_bound; lia).
+  set (e := (pZ + 1) / 4).
+  assert (He : pZ + 1 = 4 * e) by (unfold e; pose proof (Z.div_mod (pZ + 1) 4 ltac:(lia)) as D;
+    assert ((pZ + 1) mod 4 = 0) by (rewrite <- Zplus_mod_idemp_l, H4; reflexivity); lia).
+  assert (He0 : 0 < e) by lia.
+  set (c := fpow ZNum pZ a e).
+  assert (Ec : c = (a ^ e) mod pZ) by (unfold c, fpow; apply mpow_Z; lia).
+  assert (Hc : 0 <= c < pZ) by (rewrite Ec; apply Z.mod_pos_bound; lia).
+  (* c^2 = a^(2e) = a^((p+1)/2) = y^(p+1) = y^2 * y^(p-1) = y^2 *)
+  assert (Hcc : (c * c) mod pZ = a).
+  { rewrite Ec. rewrite <- Z.mul_mod by lia. rewrite <- Z.pow_add_r by lia.
+    replace (e + e) with (2 * e) by ring.
+    unfold a. rewrite <- Zpower_mod by lia. rewrite <- Z.pow_2_r, <- Z.pow_mul_r by lia.
+    replace (2 * (2 * e)) with (2 + (pZ - 1)) by lia. rewrite Z.pow_add_r by lia.
+    rewrite Z.mul_mod by lia. rewrite (fermat_unit pZ Hm Hpr y) by (try lia; rewrite Z.mod_small by lia; lia).
+    rewrite Z.mul_1_r, Z.mod_mod by lia. now rewrite Z.pow_2_r. }
+  exists c. split.
+  - unfold fsqrt. fold e. fold c. unfold feqb, fmul. cbn [n_eqb ZNum]. rewrite mmul_Z, Hcc, Z.eqb_refl. reflexivity.
+  - apply (sq_eq_cases pZ Hm Hpr c y); [exact Hc|lia|]. rewrite Hcc. reflexivity.
+Qed.
+
+Definition on_curve_Z (x y : Z) : Prop := (y * y) mod pZ = (x ^ 3 + 4) mod pZ.
+
+Theorem e1_encode_decode_roundtrip : primeZ pZ -> forall x y,
+  0 <= x < pZ -> 0 <= y < pZ -> on_curve_Z x y ->
+  decode_e1 (encode_e1 (Aff x y)) = (VALID, Aff x y).
+Proof.
+  intros Hpr x y Hx Hy Hon. pose proof pZ_lt as Hp.
+  assert (Hy0 : y <> 0).
+  { intro; subst y. unfold on_curve_Z in Hon. change (0 * 0) with 0 in Hon. rewrite Z.mod_0_l in Hon by lia.
+    apply (rhs_nonzero Hpr x Hx). now symmetry. }
+  unfold encode_e1, e1_write_bytes, fp_write_bytes. change Fp_BYTES with 48%nat.
+  change (i2osp ZNum 48 x) with (i2Z 48 x).
+  assert (Hlen : length (i2Z 48 x) = 48%nat) by apply i2Z_length.
+  assert (Hwf : wf (i2Z 48 x)) by apply i2Z_wf.
+  assert (Hval : osZ (i2Z 48 x) = x) by (apply osZ_i2Z; change (Z.of_nat 48) with 48; lia).
+  destruct (i2Z 48 x) as [|h0 t] eqn:Ei; [discriminate|]. cbn [hd0 set_hd].
+  assert (Hh0 : (h0 < 256)%N) by (inversion Hwf; assumption).
+  assert (Ht : wf t) by (inversion Hwf; assumption).
+  (* the top three bits of the first byte are clear because x < p < 2^381 *)
+  assert (Hh032 : (h0 < 32)%N).
+  { assert (B : osZ (h0 :: t) < 2 ^ 381) by (rewrite Hval; assert (pZ < 2 ^ 381) by (vm_compute; reflexivity); lia).
+    change (h0 :: t) with ([h0] ++ t) in B. unfold osZ, os2ip in B. rewrite fold_left_app in B.
+    cbn [fold_left n_add n_mul n_of_Z ZNum] in B.
+    assert (G : forall l a, wf l -> a * 256 ^ Z.of_nat (length l) <= fold_left (fun acc x0 => acc * 256 + Z.of_N x0) l a).
+    { induction l as [|q l IH]; intros a0 W; [cbn; lia|]. inversion W; subst. cbn [fold_left length].
+      specialize (IH (a0 * 256 + Z.of_N q) ltac:(assumption)).
+      replace (Z.of_nat (S (length l))) with (Z.succ (Z.of_nat (length l))) by lia.
+      rewrite Z.pow_succ_r by lia. assert (0 < 256 ^ Z.of_nat (length l)) by (apply Z.pow_pos_nonneg; lia). nia. }
+    specialize (G t (0 * 256 + Z.of_N h0) Ht). cbn [length] in Hlen. injection Hlen as Hl. rewrite Hl in G.
+    change (Z.of_nat 47) with 47 in G. assert (Z.of_N h0 * 256 ^ 47 < 2 ^ 381) by lia.
+    assert (E381 : 2 ^ 381 = 32 * 256 ^ 47) by (vm_compute; reflexivity). rewrite E381 in H.
+    assert (0 < 256 ^ 47) by (vm_compute; reflexivity). nia. }
+  set (s := fsign ZNum y).
+  set (h := N.lor (N.lor h0 (if s then 32 else 0)) 128).
+  assert (Hbits : (N.shiftr h 7 =? 1)%N = true /\ (N.land h 64 =? 0)%N = true /\
+                  N.land h 31 = h0 /\ (N.land (N.shiftr h 5) 1 =? 1)%N = s).
+  { unfold h. clear - Hh032.
+    assert (Q : forall b : bool, forallb (fun v => let hh := N.lor (N.lor v (if b then 32 else 0)) 128 in
+              (N.shiftr hh 7 =? 1)%N && (N.land hh 64 =? 0)%N && (N.land hh 31 =? v)%N &&
+              Bool.eqb (N.land (N.shiftr hh 5) 1 =? 1)%N b) (map N.of_nat (seq 0 32)) = true)
+      by (intros [|]; vm_compute; reflexivity).
+    specialize (Q s). rewrite forallb_forall in Q.
+    assert (I : In h0 (map N.of_nat (seq 0 32))).
+    { apply in_map_iff. exists (N.to_nat h0). split; [apply N2Nat.id|apply in_seq; lia]. }
+    specialize (Q h0 I). cbv zeta in Q. repeat (apply andb_prop in Q as [Q ?]).
+    repeat split; try assumption.
+    - now apply N.eqb_eq.
+    - now apply eqb_prop. }
+  destruct Hbits as (B7 & B6 & B31 & B5).
+  unfold decode_e1, e1_read_bytes. change G1_SER_BYTES with 48%nat.
+  change (Z.eqb Generated.Consts.C_G1_SERIALIZATION Generated.Consts.C_COMPRESSED) with true.
+  cbn [length] in Hlen |- *. rewrite Hlen, Nat.eqb_refl. cbn [negb hd0 tl set_hd].
+  rewrite B7. cbn [Bool.eqb negb]. rewrite B6. cbn [negb]. rewrite B5, B31.
+  rewrite fp_read_spec. cbn [length]. rewrite Hlen, Nat.eqb_refl. cbn [negb].
+  rewrite Hval. destruct (Z.ltb_spec x pZ) as [_|]; [|lia].
+  rewrite rhs_Z by lia. rewrite <- Hon.
+  destruct (fsqrt_complete Hpr y ltac:(lia)) as (c & Es & Hc). rewrite Es.
+  f_equal. f_equal. fold s.
+  destruct Hc as [Hc | Hc]; subst c.
+  - now rewrite eqb_reflx.
+  - assert (Ec : (pZ - y) mod pZ = fneg ZNum pZ y) by (symmetry; apply fneg_Z).
+    rewrite Ec. rewrite fsign_neg by lia. fold s.
+    assert (Ef : Bool.eqb (negb s) s = false) by (destruct s; reflexivity). rewrite Ef.
+    rewrite !fneg_Z. rewrite (Z.mod_small (pZ - y)) by lia.
+    replace (pZ - (pZ - y)) with y by ring. apply Z.mod_small. lia.
+Qed.
